@@ -1,4 +1,4 @@
-import IoraModel.Lemmas.TpEff
+import IoraModel.Lemmas.TpCtlStep
 /-!
 # C09 — the worker-map invariants: every live worker is registered (or being joined), a non-empty queue always has a
 guardian (a registered worker that will look at the queue again, or a submitter about to create one), and the entries of
@@ -18,10 +18,6 @@ def Guardian (threads : List Tid) (l : List Thread) (w : Tid) (th : Thread) : Pr
   isWorker th = true ∧ tailW th = false ∧ (w ∈ threads ∨ isTarget l w)
 
 structure WInv (s : St) : Prop where
-  /-- only thread 0 is a controller -/
-  oneMain : ∀ (t : Nat) (th : Thread), s.thr[t]? = some th → isMain th = true → t = 0
-  /-- (mode ≠ DETACHED) the join loop never detaches -/
-  noDetach : ∀ (t : Nat) (w : Tid) (r : MRegs), s.thr[t]? ≠ some (Thread.main (.jDetach w) r)
   /-- every worker that has not returned is accounted for -/
   reg : ∀ (w : Nat) (th : Thread), s.thr[w]? = some th → isWorker th = true → th ≠ .worker .done → Accounted s.sh.threads s.thr w th
   /-- P5: a non-empty queue has a guardian, or a submitter that is about to create one -/
@@ -34,11 +30,11 @@ structure WInv (s : St) : Prop where
   nodup : s.sh.threads.Nodup
 
 theorem fresh_class (nt : Thread) (h : isFresh nt = true) :
-    targetOf nt = none ∧ isMain nt = false ∧ atCreate nt = false ∧ tailW nt = false ∧ goneW nt = false ∧ nt ≠ .worker .done := by
+    targetOf nt = none ∧ True ∧ atCreate nt = false ∧ tailW nt = false ∧ goneW nt = false ∧ nt ≠ .worker .done := by
   cases nt with
-  | main pc r => simp [isFresh] at h
-  | sub x => cases x <;> simp [isFresh] at h; simp [targetOf, isMain, atCreate, tailW, goneW]
-  | worker w => cases w <;> simp [isFresh] at h; simp [targetOf, isMain, atCreate, tailW, goneW]
+  | main pc r => cases pc <;> simp [isFresh] at h; simp [targetOf, atCreate, tailW, goneW]
+  | sub x => cases x <;> simp [isFresh] at h; simp [targetOf, atCreate, tailW, goneW]
+  | worker w => cases w <;> simp [isFresh] at h; simp [targetOf, atCreate, tailW, goneW]
 
 section plumbing
 variable {l0 l : List Thread} {t : Tid} {th th' : Thread} {post : Post}
@@ -94,39 +90,27 @@ theorem old_thread (hts : ThreadsStep l0 l t th' post) (w : Nat) (x : Thread) (n
 end plumbing
 
 /-- the step lemma: every kind of step (described by `StepEff` + `ThreadsStep`) keeps the worker-map invariants -/
-theorem winv_of_eff (cfg : Cfg) (hmax : 1 ≤ cfg.maxSize)
+theorem effMax_pos (cfg : Cfg) : 1 ≤ cfg.effMax := by
+  unfold Cfg.effMax; simp only []; (repeat' split) <;> omega
+
+theorem effMax_init (cfg : Cfg) : cfg.initialSize ≤ cfg.effMax := by
+  unfold Cfg.effMax; simp only []; (repeat' split) <;> omega
+
+theorem winv_of_eff (cfg : Cfg)
     (s : St) (sh' : Shared) (t : Tid) (th th' : Thread) (post : Post) (alt : Nat) (l : List Thread)
     (hinv : WInv s) (hmx : MutexOk s) (hget : s.thr[t]? = some th) (hnf : isFinished th = false)
     (hen : locksM th = true → s.sh.owner = none)
     (hjoin : ∀ w r, th = .main (.jJoin w) r → ∃ tj, s.thr[w]? = some tj ∧ isFinished tj = true)
-    (hmain : isMain th' = isMain th)
-    (hnd : ∀ w r, th' = .main (.jDetach w) r → False)
+    (htgt1 : ∀ (j : Nat) (x : Thread) (w : Tid), s.thr[j]? = some x → targetOf x = some w → targetOf th ≠ none → j = t)
+    (hnd0 : ∀ w r, th ≠ .main (.jDetach w) r)
+    (hnr : restartTh th = false)
     (heff : StepEff cfg s.sh s.thr.length t th alt sh' th' post)
     (hts : ThreadsStep s.thr l t th' post)
     (hfresh : ∀ nt, post = .spawn nt → isFresh nt = true) :
     WInv { sh := sh', thr := l } := by
+  have hmax := effMax_pos cfg
   have hlt : t < s.thr.length := lt_length_of_getElem? hget
   have hth_nd : th ≠ .worker .done := fun e => by rw [e] at hnf; simp [isFinished] at hnf
-  have oneMain' : ∀ (j : Nat) (y : Thread), l[j]? = some y → isMain y = true → j = 0 := by
-    intro j y hy hm
-    rcases hts.new j y hy with ⟨e1, e2⟩ | ⟨_, x, hx, hw⟩ | ⟨nt, hnt, _, e⟩
-    · rw [e1]; rw [e2, hmain] at hm; exact hinv.oneMain t th hget hm
-    · exact hinv.oneMain j x hx (by rw [← (wokeFrom_class hw).2.2.2.2.2.1]; exact hm)
-    · rw [e, (fresh_class nt (hfresh nt hnt)).2.1] at hm; cases hm
-  have noDetach' : ∀ (j : Nat) (w : Tid) (r : MRegs), l[j]? ≠ some (Thread.main (.jDetach w) r) := by
-    intro j w r hy
-    rcases hts.new j _ hy with ⟨_, e2⟩ | ⟨_, x, hx, hw⟩ | ⟨nt, hnt, _, e⟩
-    · exact hnd w r e2.symm
-    · rcases hw with e | ⟨ha, e⟩
-      · rw [← e] at hx; exact hinv.noDetach j w r hx
-      · cases x with
-        | worker ws => cases ws <;> simp [isAsleep] at ha; simp [wake] at e
-        | main pc r => simp [isAsleep] at ha
-        | sub y => simp [isAsleep] at ha
-    · have := hfresh _ hnt; rw [← e] at this; simp [isFresh] at this
-  -- only the controller (thread 0) can have a join target
-  have only_main_target : ∀ (j : Nat) (x : Thread) (w : Tid), s.thr[j]? = some x → targetOf x = some w → j = 0 :=
-    fun j x w hx htg => hinv.oneMain j x hx (targetOf_isMain x w htg)
   have tgt_same : targetOf th' = targetOf th → ∀ w, isTarget l w ↔ isTarget s.thr w := by
     intro htgt w; constructor
     · intro hh
@@ -202,7 +186,7 @@ theorem winv_of_eff (cfg : Cfg) (hmax : 1 ≤ cfg.maxSize)
   have acting_guardian_acc : Guardian s.sh.threads s.thr t th → t ∈ s.sh.threads ∨ isTarget s.thr t := fun h => h.2.2
   cases heff with
   | quiet h hp hc hc' hw htail hgone htgt hdone =>
-    refine ⟨oneMain', noDetach', ?_, ?_, ?_, ?_, ?_⟩
+    refine ⟨?_, ?_, ?_, ?_, ?_⟩
     · apply keep_case (by intro w hm; simp only [h.threads]; exact hm) htgt hw
       · intro _ hnd' hacc
         rcases hacc with r | r | r
@@ -218,8 +202,7 @@ theorem winv_of_eff (cfg : Cfg) (hmax : 1 ≤ cfg.maxSize)
           | main pc r => simp [goneW] at hg
           | sub z => simp [goneW] at hg
       · intro nt hnt hwk
-        obtain ⟨sc, hsc⟩ := hp nt hnt
-        rw [hsc] at hwk; simp [isWorker] at hwk
+        rw [(hp nt hnt).1] at hwk; cases hwk
     · apply guard_case (by simp only [h.tasks]; exact id) (by intro w hm _; simp only [h.threads]; exact hm)
         (fun w _ r => (tgt_same htgt w).mpr r)
       · intro hg; left
@@ -240,7 +223,7 @@ theorem winv_of_eff (cfg : Cfg) (hmax : 1 ≤ cfg.maxSize)
       exact Nat.lt_of_lt_of_le (hinv.bound w hm) hts.len
     · simp only [h.threads]; exact hinv.nodup
   | push cid hs ht h2 h3 h4 hp hc hc' hw htail hgone htgt hdone hl =>
-    refine ⟨oneMain', noDetach', ?_, ?_, ?_, ?_, ?_⟩
+    refine ⟨?_, ?_, ?_, ?_, ?_⟩
     · apply keep_case (by intro w hm; simp only [h2]; exact hm) htgt hw
       · intro _ hnd' hacc
         rcases hacc with r | r | r
@@ -296,7 +279,7 @@ theorem winv_of_eff (cfg : Cfg) (hmax : 1 ≤ cfg.maxSize)
   | create hc hc' h1 ht h3 h4 hp hw htail hgone htgt hdone =>
     have hsp := hts.spawned newWorker hp
     have hnew_mem : s.thr.length ∈ sh'.threads := by simp only [ht]; simp
-    refine ⟨oneMain', noDetach', ?_, ?_, ?_, ?_, ?_⟩
+    refine ⟨?_, ?_, ?_, ?_, ?_⟩
     · apply keep_case (by intro w hm; simp only [ht]; exact List.mem_append_left _ hm) htgt hw
       · intro _ hnd' hacc
         rcases hacc with r | r | r
@@ -352,7 +335,7 @@ theorem winv_of_eff (cfg : Cfg) (hmax : 1 ≤ cfg.maxSize)
       rw [worker_no_target hth.1]; rcases hw with ⟨e, _⟩ | ⟨e, _⟩ <;> rw [e] <;> rfl
     have hwk : isWorker th' = isWorker th := by
       rw [hth.1]; rcases hw with ⟨e, _⟩ | ⟨e, _⟩ <;> rw [e] <;> rfl
-    refine ⟨oneMain', noDetach', ?_, ?_, ?_, ?_, ?_⟩
+    refine ⟨?_, ?_, ?_, ?_, ?_⟩
     · apply keep_case (by intro w hm; simp only [h.threads]; exact hm) htgt hwk
       · intro _ _ _
         rcases hw with ⟨e, hm⟩ | ⟨e, _⟩
@@ -372,7 +355,7 @@ theorem winv_of_eff (cfg : Cfg) (hmax : 1 ≤ cfg.maxSize)
   | exitShutdown h hp hth he hs hw =>
     have htgt : targetOf th' = targetOf th := by rw [worker_no_target hth.1, hw]; rfl
     have hwk : isWorker th' = isWorker th := by rw [hth.1, hw]; rfl
-    refine ⟨oneMain', noDetach', ?_, ?_, ?_, ?_, ?_⟩
+    refine ⟨?_, ?_, ?_, ?_, ?_⟩
     · apply keep_case (by intro w hm; simp only [h.threads]; exact hm) htgt hwk
       · intro _ _ _; exact Or.inr (Or.inr hw)
       · intro nt hnt; rw [hp] at hnt; cases hnt
@@ -389,7 +372,7 @@ theorem winv_of_eff (cfg : Cfg) (hmax : 1 ≤ cfg.maxSize)
       · exact Or.inl r
       · exact Or.inr r
       · rw [r] at hth; simp [tailW] at hth
-    refine ⟨oneMain', noDetach', ?_, ?_, ?_, ?_, ?_⟩
+    refine ⟨?_, ?_, ?_, ?_, ?_⟩
     · apply keep_case (by intro w hm; simp only [h2]; exact hm) htgt hwk
       · intro _ _ _
         rcases hacc with r | r
@@ -408,7 +391,7 @@ theorem winv_of_eff (cfg : Cfg) (hmax : 1 ≤ cfg.maxSize)
     · simp only [h2]; exact hinv.nodup
   | selfErase hth hw h1 ht h3 h4 hp =>
     have htgt : targetOf th' = targetOf th := by rw [hth, hw]; rfl
-    refine ⟨oneMain', noDetach', ?_, ?_, ?_, ?_, ?_⟩
+    refine ⟨?_, ?_, ?_, ?_, ?_⟩
     · apply reg_step hts hinv.reg
       · intro _ _; exact Or.inr (Or.inr hw)
       · intro w x ne _ _ _ hacc
@@ -433,7 +416,7 @@ theorem winv_of_eff (cfg : Cfg) (hmax : 1 ≤ cfg.maxSize)
   | finishW hth hw h hp =>
     have htgt : targetOf th' = targetOf th := by rw [hth, hw]; rfl
     have hwk : isWorker th' = isWorker th := by rw [hth, hw]; rfl
-    refine ⟨oneMain', noDetach', ?_, ?_, ?_, ?_, ?_⟩
+    refine ⟨?_, ?_, ?_, ?_, ?_⟩
     · apply keep_case (by intro w hm; simp only [h.threads]; exact hm) htgt hwk
       · intro _ hnd' _; exact absurd hw hnd'
       · intro nt hnt; rw [hp] at hnt; cases hnt
@@ -455,7 +438,7 @@ theorem winv_of_eff (cfg : Cfg) (hmax : 1 ≤ cfg.maxSize)
     have tgt_alt : isTarget l alt := ⟨t, th', hts.self, by rw [hw]; rfl⟩
     have tgt_keep : ∀ w, isTarget s.thr w → isTarget l w := by
       intro w hh; exact isTarget_keep hts hget w hh (by rw [hth]; intro e; simp [targetOf] at e)
-    refine ⟨oneMain', noDetach', ?_, ?_, ?_, ?_, ?_⟩
+    refine ⟨?_, ?_, ?_, ?_, ?_⟩
     · apply reg_step hts hinv.reg
       · intro hwk; rw [hw] at hwk; simp [isWorker] at hwk
       · intro w x _ _ _ _ hacc
@@ -502,7 +485,7 @@ theorem winv_of_eff (cfg : Cfg) (hmax : 1 ≤ cfg.maxSize)
   | quiesce r hth hw he h1 ht h3 h4 hp =>
     have htgt : targetOf th' = targetOf th := by rw [hth, hw]; rfl
     have hwk : isWorker th' = isWorker th := by rw [hth, hw]; rfl
-    refine ⟨oneMain', noDetach', ?_, ?_, ?_, ?_, ?_⟩
+    refine ⟨?_, ?_, ?_, ?_, ?_⟩
     · apply keep_case (by intro w hm; simp only [ht]; exact hm) htgt hwk
       · intro hh; rw [hw] at hh; simp [isWorker] at hh
       · intro nt hnt; rw [hp] at hnt; cases hnt
@@ -519,17 +502,16 @@ theorem winv_of_eff (cfg : Cfg) (hmax : 1 ≤ cfg.maxSize)
     have hth' : th = .main (.jJoin w0) r := by
       rcases hth with e | e
       · exact e
-      · exact absurd (by rw [← e]; exact hget) (hinv.noDetach t w0 r)
+      · exact absurd e (hnd0 w0 r)
     obtain ⟨tj, htj, hfin⟩ := hjoin w0 r hth'
-    have ht0 : t = 0 := hinv.oneMain t th hget (by rw [hth']; rfl)
     -- the only target before the step is `w0`
     have only_w0 : ∀ w, isTarget s.thr w → w = w0 := by
       intro w ⟨j, x, hx, htg⟩
-      have hj := only_main_target j x w hx htg
-      rw [hj, ← ht0, hget] at hx
+      have hj := htgt1 j x w hx htg (by rw [hth']; simp [targetOf])
+      rw [hj, hget] at hx
       have e2 : th = x := Option.some.inj hx
       rw [← e2, hth'] at htg; simp [targetOf] at htg; exact htg.symm
-    refine ⟨oneMain', noDetach', ?_, ?_, ?_, ?_, ?_⟩
+    refine ⟨?_, ?_, ?_, ?_, ?_⟩
     · apply reg_step hts hinv.reg
       · intro hwk; rw [hw] at hwk; simp [isWorker] at hwk
       · intro w x _ hx hwk hxnd hacc
@@ -577,10 +559,11 @@ theorem winv_of_eff (cfg : Cfg) (hmax : 1 ≤ cfg.maxSize)
     · intro w hm; simp only [h.threads] at hm
       exact Nat.lt_of_lt_of_le (hinv.bound w hm) hts.len
     · simp only [h.threads]; exact hinv.nodup
+  | restart hth => rw [hnr] at hth; cases hth
   | setShut r hth hw hs h1 ht h3 h4 hp =>
     have htgt : targetOf th' = targetOf th := by rw [hth, hw]; rfl
     have hwk : isWorker th' = isWorker th := by rw [hth, hw]; rfl
-    refine ⟨oneMain', noDetach', ?_, ?_, ?_, ?_, ?_⟩
+    refine ⟨?_, ?_, ?_, ?_, ?_⟩
     · apply keep_case (by intro w hm; simp only [ht]; exact hm) htgt hwk
       · intro hh; rw [hw] at hh; simp [isWorker] at hh
       · intro nt hnt; rw [hp] at hnt; cases hnt
